@@ -329,7 +329,7 @@ theorem deliver_live_dup (hw : WFConfig accts groups) {s : Sys} (h : FInv accts 
     rw [this]
     rfl
   obtain ⟨m1, m2, mQ, m4, m5, m6, m7⟩ := msg_crypto h hq hlive (Or.inl rfl) true
-  obtain ⟨o1, o2⟩ := msg_opened h hq hlive
+  obtain ⟨o1, o2, _⟩ := msg_opened h hq hlive
   have hcy : getClient (step s (.deliver y .dup)) y = (heC (getClient s y) id peer part im encs pl).1 := by
     rw [getClient_of_view hv y]; simp
   have hdead' : dead (getClient (clientReceive s y (.msg id peer part im encs pl)) y) (.msg id peer part im encs pl) = true := by
